@@ -94,6 +94,7 @@ def spy_class(name):
         def __init__(self, *a, **kw):
             base.__init__(self, *a, **kw)
             self.spy_log = []
+            self.spy_delivery = None      # shared, cross-sensor delivery sequence
 
         def compute_matrices(self, time, pva, error_model):
             ret = base.compute_matrices(self, time, pva, error_model)
@@ -104,6 +105,8 @@ def spy_class(name):
                 self.spy_log.append((float(time),
                                      (tuple(np.shape(z)), tuple(np.shape(H)),
                                       tuple(np.shape(R)))))
+                if self.spy_delivery is not None:
+                    self.spy_delivery.append((float(time), base.__name__))
             return ret
 
     Spy.__name__ = base.__name__
@@ -253,7 +256,7 @@ def _feed(h, obj):
 
 
 _depth = [0]
-_SKIP_ATTRS = {'spy_log'}
+_SKIP_ATTRS = {'spy_log', 'spy_delivery'}
 
 
 def digest(*objs):
